@@ -72,3 +72,17 @@ package pomsg
 //@   ensures[keeps-the-id;C11] result.ID == id
 //@   loop 0
 //@     invariant[one-case-per-msgstr-so-far;C11] len(cases) == rangeindex + 1
+
+// every PO entry is read on its own: the id and the plural variable come from
+// this entry's references only (they start empty for each entry), the message
+// is stored under that id and built from this entry's msgstrs.
+//@ func newBundle
+//@   props C11
+//@   nosafety
+//@   modifies *
+//@   at call pomsg.newMessage#0 assert[message-built-from-this-entry's-id-variable-and-msgstrs;C11] arg0 == id && same(arg1, varName)
+//@   at call mapupdate#0 assert[stored-under-this-entry's-id;C11] key == id
+//@   loop 0
+//@     noterm
+//@   loop 1
+//@     invariant[id-and-variable-start-empty-for-each-entry;C11] rangeindex == -1 ==> id == 0 && len(varName) == 0
